@@ -30,6 +30,12 @@ HEADER = """From Coq Require Import List NArith Bool String.
 Import ListNotations.
 Require Import RV.Lib.PyStr RV.Model.XmlProlog RV.Model.XmlReject.
 Open Scope N_scope.
+(* one term of the grammar with one method, and the variants (declared charset, decode results, observed outcome) it was sent
+   with: the term is written -- and parsed by coqc -- once *)
+Definition corr_group (fd : bool)
+    (x : method * attack * rootkind * list (option pystr * list (pystr * N) * (bool * (N * N) * N * pystr))) : bool :=
+  let '(m, a, rk, vs) := x in
+  forallb (fun v => let '(ct, rs, e) := v in corr_eqb (corr_case fd (m, a, rk, ct, rs)) e) vs.
 """
 
 TIME_LIMIT_S = 2.0
@@ -451,7 +457,37 @@ def _run(ctx, base):
     good = [c for c in cases if c["mark"] in results]
     pairs = [(c, expected_tuple(c, results[c["mark"]])) for c in good]
     pairs += [(c, expected_tuple(c, hres[c["mark"]])) for c in hcases if c["a"] is not None and c["mark"] in hres]
-    bad = ctx.diff_cases("c19_corr", HEADER, "(corr_case %s)" % ("true" if fd else "false"), pairs, enc_in, enc_out, "corr_eqb", shard=80)
+    res_of = {id(c): results[c["mark"]] for c in good}
+    res_of.update({id(c): hres[c["mark"]] for c in hcases if c["mark"] in hres})
+    fdt = "true" if fd else "false"
+    groups, order = {}, []
+    for i, (c, exp) in enumerate(pairs):
+        k = (id(c["a"]), c["method"])
+        if k not in groups:
+            groups[k] = []
+            order.append(k)
+        groups[k].append(i)
+    ctx.extra["correspondence_groups"] = len(order)
+
+    def enc_group(idxs):
+        c0 = pairs[idxs[0]][0]
+        vs = []
+        for i in idxs:
+            c, exp = pairs[i]
+            rs = "[" + ";".join("(%s, %d)" % (X.e_str(n), code) for n, code, _ in c["dres"]) + "]"
+            ct = "(@None (list N))" if c["named"] is None else "(Some %s)" % X.e_str(c["named"])
+            vs.append("(%s, %s, %s)" % (ct, rs, enc_out(exp)))
+        return "(%s, %s, %s, [%s])" % (X.COQ_METHOD[c0["method"]], X.e_attack(c0["a"]), X.ROOTKIND[c0["a"]["rootkind"]], ";".join(vs))
+    gbad = ctx.diff_cases("c19_corr", HEADER, "(corr_group %s)" % fdt, [(groups[k], True) for k in order], enc_group,
+                          core.enc_bool, "Bool.eqb", shard=30)
+    bad = None
+    if gbad is not None:
+        bad = []
+        if gbad:
+            # locate the disagreeing variants of the disagreeing groups
+            sub = [i for g in gbad for i in groups[order[g]]]
+            b2 = ctx.diff_cases("c19_corr1", HEADER, "(corr_case %s)" % fdt, [pairs[i] for i in sub], enc_in, enc_out, "corr_eqb", shard=80)
+            bad = [sub[j] for j in (b2 or [])] or [sub[0]]
     if bad is not None:
         ok = not bad
         detail = ""
@@ -466,7 +502,7 @@ def _run(ctx, base):
             # the disagreeing case is the failing input (the monitors saw nothing wrong with it)
             c, exp = pairs[bad[0]]
             ctx.violation("C19 model / implementation disagree on %s %s (%s, %s): observed %r" % (
-                c["method"], c["path"], c["kind"], c["charset"], exp[3:]), replay_of(c, results[c["mark"]]))
+                c["method"], c["path"], c["kind"], c["charset"], exp[3:]), replay_of(c, res_of[id(c)]))
 
 
 # ---------------------------------------------------------------------------------------------- request histories
